@@ -5,6 +5,7 @@ import AnnetModel.Glue.Common
 import AnnetModel.Model.Api
 import AnnetModel.Spec.TestLogics
 import AnnetModel.Spec.DiffText
+import AnnetModel.Spec.DiffTextStrict
 import AnnetModel.Spec.ConvergeNested
 
 namespace Annet.Glue.Rb
@@ -122,7 +123,7 @@ def textViews (j : Json) (sd : List DItem) : Except String (List (String × Json
     | some s =>
       let texts := fmts.map fun (name, f) =>
         let lines := DiffText.diffText f s
-        let back := match DiffText.parseSigned f lines with
+        let back := match DiffText.parseSignedStrict f lines with
           | some b => b.length == s.length && (b.zip s).all fun (x, y) => sitemBeq x y
           | none => false
         Json.arr #[Json.str name, jStrs (lines.map String.ofList), Json.bool back]
